@@ -462,6 +462,21 @@ def project(P, C, out, n):
 
 
 def run_case(case):
+    """an exception raised inside jinns while solve runs is a datum (codeexc), an exception of the harness is a driver crash"""
+    import os
+    import traceback
+
+    try:
+        return _run_case(case)
+    except Exception as ex:  # noqa
+        frames = traceback.extract_tb(ex.__traceback__)
+        inside = [f for f in frames if os.sep + "jinns" + os.sep in f.filename and "/verif/" not in f.filename]
+        if not inside or "/verif/" in frames[-1].filename:
+            raise
+        return dict(case=case, codeexc=f"{type(ex).__name__} at {os.path.basename(inside[-1].filename)}:{inside[-1].lineno}: {str(ex)[:160]}")
+
+
+def _run_case(case):
     """case: dict(C=scenario from TLC, opt=driver options [, resume=n1])  ->  record(s) for Trace_Solve"""
     C, opt = dict(case["C"]), case["opt"]
     n = C["n"]
